@@ -121,6 +121,16 @@ def check_set(mods, requested, sig, real=True):
             vs.append(('%s|does-not-execute|%s' % (sig, err.split(':')[0]), '%s: %s\n%s' % (n, err, src)))
             continue
         nss[n] = ns
+        # every symbol the MIB text imports from another generated module is imported by the generated code as well
+        done = set((frm, sym) for frm, sym, ok in builder.imports[before:])
+        spec = [m for m in mods if m['name'] == n][0]
+        for frm, syms in spec.get('imports') or []:
+            if frm in texts:
+                for sym in syms:
+                    if (frm, sym) not in done and (frm, refir.under(sym)) not in done:
+                        vs.append(('%s|mib-import-not-imported-by-generated-code' % sig,
+                                   '%s: IMPORTS %s FROM %s, generated code imports %r\n%s' % (
+                                       n, sym, frm, sorted(s_ for f_, s_ in done if f_ == frm), src)))
         for frm, sym, ok in builder.imports[before:]:
             if frm in texts and not ok:
                 vs.append(('%s|imports-unexported-symbol|%s' % (sig, 'hyphen' if '-' in sym else 'plain'),
@@ -168,7 +178,7 @@ def name_style(base, style, upper=False):
     return (base[0].upper() + base[1:]) if upper else base
 
 
-USES = ['node-parent', 'scalar-object', 'column-index', 'row-augments', 'table-parent', 'notif-member', 'group-member',
+USES = ['case-twins', 'case-twins-rev', 'node-parent', 'scalar-object', 'column-index', 'row-augments', 'table-parent', 'notif-member', 'group-member',
         'tc-syntax', 'type-syntax', 'type-refined', 'scalar-defval-oid']
 
 
@@ -187,7 +197,15 @@ def cross_modules(use, style):
           'syntax': ('simple', 'OCTET STRING', ('size', [(0, 8)]))},
          {'k': 'type', 'name': n('AType', True), 'syntax': ('simple', 'INTEGER', ('range', [(0, 9)]))}]
     b = [{'k': 'value', 'name': 'bRoot', 'oid': ['enterprises', 6161]}]
-    if use == 'node-parent':
+    if use in ('case-twins', 'case-twins-rev'):
+        # two symbols of A that differ only in letter case, both used by B
+        a.append({'k': 'tc', 'name': n('AScalar', True), 'display': None, 'status': 'current', 'descr': 'd',
+                  'syntax': ('simple', 'INTEGER', ('range', [(0, 7)]))})
+        b.append(C03ot('bObj', ('ref', n('AScalar', True)), ['bRoot', 5]))
+        b.append({'k': 'og', 'name': 'bGroup', 'objects': [n('aScalar'), 'bObj'], 'status': 'current', 'descr': 'd', 'oid': ['bRoot', 1]})
+        if use.endswith('rev'):
+            b[-1], b[-2] = b[-2], b[-1]
+    elif use == 'node-parent':
         b.append({'k': 'value', 'name': 'bNode', 'oid': [n('aRoot'), 77]})
     elif use == 'table-parent':
         b.append({'k': 'value', 'name': 'bNode', 'oid': [n('aTable'), 77]})
